@@ -1132,6 +1132,73 @@ val dline_ok : n -> n -> dline -> bool
 
 val result_ok : outcome -> bool
 
+val env_always : (n list * n list option) list
+
+val env_cram_compat : (n list * n list option) list
+
+val mem : n list -> n list list -> bool
+
+val candidate : n list -> nat -> n list
+
+val search :
+  nat -> n list list -> n list list -> n list -> nat -> n list option
+
+val next_name :
+  n list list -> n list list -> n list -> (n list * n list list) option
+
+val next_names :
+  n list list -> n list list -> n list list -> n list list option
+
+type flag =
+| FDefault
+| FWork
+| FKeep
+
+type dclass =
+| DRun
+| DBadInclude
+| DExecError
+
+type seg =
+| SExec of nat
+| STemp of nat
+| SState of nat
+| STmpSub
+| SDoc of n list
+| SFile of nat
+| SGiven
+
+type path = seg list
+
+val seg_eqb : seg -> seg -> bool
+
+val is_prefix : path -> path -> bool
+
+type fs = path list
+
+val create : path -> fs -> fs
+
+val remove_tree : path -> fs -> fs
+
+val env_create : flag -> nat -> fs -> fs
+
+val env_drop : flag -> nat -> fs -> fs
+
+val work_dir : flag -> nat -> n list -> path
+
+val tmp_dir : flag -> nat -> path
+
+type doc = { d_name : n list; d_class : dclass; d_work_files : nat list;
+             d_tmp_files : nat list }
+
+val dir_run_doc : flag -> nat -> doc -> fs -> fs * bool
+
+val dir_run_docs : flag -> nat -> doc list -> fs -> fs
+
+val dir_processed : doc list -> nat
+
+val scrut_test_value : n list -> n -> n list
+
 val make_exp : bool -> bool -> (nat -> bool) -> nat exp
 
 val exp_opt : nat exp -> bool
